@@ -1,4 +1,5 @@
 import Posmint.Model.Coins
+import Posmint.Model.DecCoins
 import Posmint.Driver.Util
 namespace Posmint.Driver
 open Posmint.Coins
@@ -26,6 +27,11 @@ def cbin (f : Coins → Coins → String) (a b : String) : String :=
   | some x, some y => f x y
   | _, _ => "bad-op"
 
+def cdec (f : Coins → Int → Option Coins) (a d : String) : String :=
+  match parseCoinsText a, d.toInt? with
+  | some x, some y => showOptCoins (f x y)
+  | _, _ => "bad-op"
+
 def stepCoins : List String → String
   | ["coins.valid", a] => (match parseCoinsText a with | some x => showBool (isValid x) | none => "bad-op")
   | ["coins.new", a] => (match parseCoinsText a with | some x => showOptCoins (newCoins x) | none => "bad-op")
@@ -43,6 +49,20 @@ def stepCoins : List String → String
   | ["coins.anygte", a, b] => cbin (fun x y => showOptBool (isAnyGTE x y)) a b
   | ["coins.subset", a, b] => cbin (fun x y => showOptBool (denomsSubsetOf x y)) a b
   | ["coins.isequal", a, b] => cbin (fun x y => showOptBool (isEqual x y)) a b
+  | ["dcoins.add", a, b] => cbin (fun x y => showOptCoins (DecCoins.add x y)) a b
+  | ["dcoins.sub", a, b] => cbin (fun x y => showOptCoins (DecCoins.sub x y)) a b
+  | ["dcoins.safesub", a, b] => cbin (fun x y => match DecCoins.safeSub x y with
+      | some (d, neg) => s!"ok {showCoins d} neg={showBool neg}" | none => "panic") a b
+  | ["dcoins.intersect", a, b] => cbin (fun x y => showOptCoins (DecCoins.intersect x y)) a b
+  | ["dcoins.amountof", a, d] => (match parseCoinsText a with | some x => showOpt (DecCoins.amountOf x d) | none => "bad-op")
+  | ["dcoins.muldec", a, d] => cdec DecCoins.mulDec a d
+  | ["dcoins.muldectrunc", a, d] => cdec DecCoins.mulDecTruncate a d
+  | ["dcoins.quodec", a, d] => cdec DecCoins.quoDec a d
+  | ["dcoins.quodectrunc", a, d] => cdec DecCoins.quoDecTruncate a d
+  | ["dcoins.trunc", a] => (match parseCoinsText a with
+      | some x => (match DecCoins.truncateDecimal x with
+        | some (w, ch) => s!"ok {showCoins w} | {showCoins ch}" | none => "panic")
+      | none => "bad-op")
   | t :: _ => if t.startsWith "mon." then "done" else "bad-op"   -- monitor-only operations (DecCoins): checked on the Go side
   | _ => "bad-op"
 
